@@ -316,6 +316,14 @@ CELLS = [
     ("log.warning('warned')\n5", "OUT5:warned"),
     ("int('q')", "ERR:ValueError"),
     ("import math\nmath.floor(2.5)", "2"),
+    # values that are falsy without being None still are results
+    ("0", "0"),
+    ("''", "''"),
+    ("[]", "[]"),
+    ("1 == 2", "False"),
+    ("{}", "{}"),
+    ("0.0", "0.0"),
+    ("()", "()"),
 ]
 
 
